@@ -243,7 +243,12 @@ impl Check for C15 {
         let shape = SHAPES[((index as usize) / KINDS.len()) % SHAPES.len()];
         let where_ = ((index as usize) / (KINDS.len() * SHAPES.len())) % 3;
         let b = build(&mut rng, kind, shape, where_);
-        let r = sy::compile_files(&b.files, "main.sy", &CompileOpts { fuel: Some(crate::rel::CAMPAIGN_FUEL), ..Default::default() });
+        // every third project is written to disk and read back through the driver's own reader
+        // (sylt::read_file): what the reader does to the text is part of where a line is
+        let via_disk = index % 3 == 1;
+        let opts = CompileOpts { fuel: Some(crate::rel::CAMPAIGN_FUEL), ..Default::default() };
+        let r = if via_disk { sy::compile_on_disk(&b.files, "main.sy", &opts, &format!("c15-{}", index)) } else { sy::compile_files(&b.files, "main.sy", &opts) };
+        st.count(if via_disk { "read:from_disk_through_the_drivers_reader" } else { "read:in_memory" });
         let cell = format!("{} | {} | {:?}", kind.name, ["main file", "first import", "later import"][where_], shape);
         st.count("planted_errors");
         st.count(&format!("kind:{}", kind.name));
@@ -253,6 +258,7 @@ impl Check for C15 {
             J::obj()
                 .with("kind", J::s(kind.name))
                 .with("shape", J::s(format!("{:?}", shape)))
+                .with("read_from_disk", J::Bool(via_disk))
                 .with("planted_file", J::s(b.planted_file.clone()))
                 .with("planted_lines", J::Arr(b.lines.iter().map(|l| J::Int(*l as i64)).collect()))
                 .with("files", J::Obj(b.files.iter().map(|(k, v)| (k.clone(), J::s(v.clone()))).collect()))
@@ -302,7 +308,7 @@ impl Check for C15 {
         Finish {
             level: "exploration",
             rule: format!(
-                "one local error of {} kinds (syntax x9, unresolved name x2, duplicate global, assignment to constant, literal type mismatches x4, break outside loop, conflict marker (also below the same characters quoted mid-line), 5 multi-line calls whose offending argument is on a continuation line, 13 constructs that mention another file's namespace: unresolved/mistyped qualified accesses, namespace as value, from-imports) is planted at a known line of the main file, the first or a later imported file; the rest of the project is valid text of one of {} shapes (plain ASCII, non-ASCII comments/strings, string literals spanning lines, CRLF, tabs, 1500-3000 character lines, runs of blank lines, mixed). Oracle: file and span.line_start of the first returned error equal the planted file and line (either definition line for duplicates). Non-trivial & distinct: (kind, file position, shape, instance).",
+                "one local error of {} kinds (syntax x9, unresolved name x2, duplicate global, assignment to constant, literal type mismatches x4, break outside loop, conflict marker (also below the same characters quoted mid-line), 5 multi-line calls whose offending argument is on a continuation line, 13 constructs that mention another file's namespace: unresolved/mistyped qualified accesses, namespace as value, from-imports) is planted at a known line of the main file, the first or a later imported file; the rest of the project is valid text of one of {} shapes (plain ASCII, non-ASCII comments/strings, string literals spanning lines, CRLF, tabs, 1500-3000 character lines, runs of blank lines, mixed). A third of the projects is written to a scratch directory and read back through the driver's own reader (sylt::read_file), the rest through an in-memory reader. Oracle: file and span.line_start of the first returned error equal the planted file and line (either definition line for duplicates). Non-trivial & distinct: (kind, file position, shape, instance).",
                 KINDS.len(),
                 SHAPES.len()
             ),
